@@ -357,6 +357,13 @@ void kirsch_kfifo_queue<T, Policies...>::advance_head(guard_ptr& head_current, m
     return;
   }
 
+  if (head_next_segment.get() == nullptr) {
+    // Nothing to advance to (yet). The caller may have come here with a stale tail_current; in that case
+    // the load (7) is not ordered after the insertion of the next segment and can still return null,
+    // which must never become the new head.
+    return;
+  }
+
   if (head_current.get() == tail_current.get()) {
     // (8) - this acquire-load synchronizes-with the release-CAS (13)
     const marked_ptr tail_next_segment = tail_current->next.load(std::memory_order_acquire);
